@@ -350,21 +350,27 @@ theorem validated_cost_exact {κ : Type} (ctx0 : κ) (opName : String) (max : In
 
 /-- **connection_charges_max_count** — for `conn(first: F, last: L) { edges { sels } }` with the
     default costs, the reference cost is `M` for the connection itself plus the cost of `sels` under
-    the multiplier `M × effMul (connMaxCount F L)` (a count ≤ 1 counts as 1): the multiplier charged
-    for every edge sub-selection is `effMul (connMaxCount F L)`. -/
-theorem connection_charges_max_count (E : String → Nat → Int → Option Nat) (dflt : FieldCost Int)
-    (M : Nat) (c : Int) (first last : ArgVal) (sels : List (Node Int)) :
+    the multiplier `M × effMul (connMaxCount F L)` (a count ≤ 1 counts as 1) — and `sels` are costed in
+    the context `(c.1, connMaxCount F L)`: the value an *ancestor's* cost function handed down (`c.1`)
+    is still what the descendants of the connection see. -/
+theorem connection_charges_max_count (E : String → Nat → Ctx → Option Nat) (dflt : FieldCost Ctx)
+    (M : Nat) (c : Ctx) (first last : ArgVal) (sels : List (Node Ctx)) :
     Spec.refNode E dflt M c
       (.field (.fn (connectionCost first last)) [.other [.field (.fn edgesCost) [.other sels]]]) =
-    (Spec.refList E dflt (M * Spec.effMul (connMaxCount first last)) (connMaxCount first last) sels).map
+    (Spec.refList E dflt (M * Spec.effMul (connMaxCount first last)) (c.1, connMaxCount first last) sels).map
       (fun below => M + below) := by
   have e0 : Spec.effMul 0 = 1 := by decide
   simp only [Spec.refNode, Spec.refList, connectionCost, edgesCost, e0, Option.getD, Nat.mul_one,
     Int.toNat_zero, Int.toNat_one, Nat.mul_zero, Nat.zero_add]
-  generalize Spec.refList E dflt (M * Spec.effMul (connMaxCount first last)) (connMaxCount first last) sels = r
+  generalize Spec.refList E dflt (M * Spec.effMul (connMaxCount first last)) (c.1, connMaxCount first last) sels = r
   cases r with
   | none => rfl
   | some b => simp [Option.map]
+
+/-- **connection_keeps_ancestor_context** — the context a default-cost connection hands down differs
+    from the one it received only in the max edge count. -/
+theorem connection_keeps_ancestor_context (first last : ArgVal) (k : Ctx) :
+    (connectionCost first last k).ctx = some (k.1, connMaxCount first last) := rfl
 
 /-- **null_counts_as_absent** — an explicit `null` (literal or null-valued variable) for `first` or
     `last` is charged exactly like an omitted argument: the cost function and the resolver both read
